@@ -128,15 +128,15 @@ func (ex *Exec) libModel(fn *ssa.Function) (libFn, bool) {
 	return nil, false
 }
 
-func (ex *Exec) libMods(fn *ssa.Function, c *ssa.CallCommon, ms *modSet) {
+func (ex *Exec) libMods(fn *ssa.Function, c *ssa.CallCommon, ms *modSet, blocks map[*ssa.BasicBlock]bool) {
 	name := fn.String()
 	switch {
 	case strings.Contains(name, ").PutUint"):
-		ms.heaps[contentHeapName(ex.byteSort())] = ex.contentSort(ex.byteSort())
+		ex.sliceArgSite(c.Args[len(c.Args)-2], ms)
 	case strings.HasPrefix(name, "sync/atomic.Store"), strings.HasPrefix(name, "sync/atomic.Swap"), strings.HasPrefix(name, "sync/atomic.CompareAndSwap"), strings.HasPrefix(name, "sync/atomic.Add"):
 		if len(c.Args) > 0 {
 			et := c.Args[0].Type().Underlying().(*types.Pointer).Elem()
-			ex.modsOfAddr(c.Args[0], et, ms)
+			ex.modsOfAddr(c.Args[0], et, ms, blocks)
 		}
 	case name == "errors.New" || name == "fmt.Errorf":
 		ms.alloc = true
